@@ -54,6 +54,9 @@ def run(prog, chk, tier):
                        "is false; every region end and the end of file are enforced; BytesReader.read raises on short / negative-size reads (a necessary condition: the "
                        "MACs are over zero-padded data, so dropping trailing 0x00 bytes keeps them valid). Signature guards of both file kinds. The enumeration of all "
                        "single-byte damages is not performed.")
+    from rules import state as _state
+
+    _state.library_state_rules(prog, chk, "C04")
     if bf3.rule_reader_layout(m, chk, "C04"):
         bf3.reader_rules(m, chk, "C04")
         coverage_rule(m, chk, "C04")
